@@ -1056,7 +1056,7 @@ pub fn check(ctx: &mut Ctx) {
     if ctx.shard == 0 {
         fam_hazards(ctx);
     }
-    let n = ctx.budget(4800, 160000);
+    let n = ctx.budget(16000, 300000);
     for i in 0..n {
         let mut r = ctx.rng.fork();
         match i % 12 {
